@@ -4,6 +4,11 @@ import (
 	"math/rand"
 	"strconv"
 	"strings"
+	"time"
+
+	"gircverif/drive"
+
+	"github.com/lrstanley/girc"
 )
 
 // Hostile generator: every command the state handlers react to, with too few / too many
@@ -341,6 +346,67 @@ func init() {
 		}
 		return Result{Obs: obs, Oracle: oracle, Sig: sig}
 	}
+	// Finding handler-injected-error-self-blocks (NOT in conf/C05.json until it is repaired or
+	// recorded): SASL configured, a user handler that takes 3 ms per PRIVMSG, and the whole
+	// history written in one burst, so that the receive queue (25) is full when the handler of
+	// the failing SASL reply queues its ERROR. The client must still disconnect promptly.
+	stallDirect := func(c Case) Result {
+		_, nick, user, evs, ok := DecodeHistory(c)
+		if !ok {
+			return Result{Obs: "?bad-args", Sig: ""}
+		}
+		cfg := drive.BaseConfig()
+		cfg.Nick, cfg.User = nick, user
+		cfg.SASL = &girc.SASLPlain{User: "acct", Pass: "secret"}
+		ss := drive.Start(cfg)
+		ss.C.Handlers.Add(girc.PRIVMSG, func(c *girc.Client, e girc.Event) { time.Sleep(3 * time.Millisecond) })
+		var sb strings.Builder
+		for _, e := range evs {
+			line, lok := e.Line()
+			if !lok {
+				return Result{Obs: "?unrenderable"}
+			}
+			sb.WriteString(line + "\r\n")
+		}
+		go ss.Peer.Write([]byte(sb.String()))
+		select {
+		case err := <-ss.Done:
+			ss.Done <- err
+			ss.Stop()
+			if err == nil {
+				return Result{Obs: "disconnected-nil", Oracle: "liveness: Connect returned without an error", Sig: "burst/nil"}
+			}
+			return Result{Obs: "disconnected", Sig: "burst/disconnected"}
+		case <-time.After(12 * time.Second):
+			return Result{Obs: "STALLED", Oracle: "stall: 12 s after a failed SASL exchange the client has neither disconnected nor moved on (the handler blocks on its own receive queue; the queued ERROR is dropped after 30 s)", Sig: "burst/stalled"}
+		}
+	}
+	Register(&Suite{
+		Name: "state.stall",
+		Prop: []string{"C05"},
+		Gen: func(r *rand.Rand) Case {
+			chat := func() Ev {
+				return Ev{HasSrc: true, Name: Pick(r, "alice", "bob", "zed"), Ident: "u", Host: "h", Cmd: "PRIVMSG", Params: []string{"#chan", "hello there"}}
+			}
+			evs := joinedPrefix()
+			for i := 2 + r.Intn(8); i > 0; i-- {
+				evs = append(evs, chat())
+			}
+			switch r.Intn(3) {
+			case 0:
+				evs = append(evs, Ev{HasSrc: true, Name: "srv", Cmd: Pick(r, "902", "904", "905", "906", "908"), Params: []string{"me", "SASL authentication failed"}})
+			case 1:
+				evs = append(evs, Ev{Cmd: "AUTHENTICATE", Params: []string{Pick(r, "PLAIN", "*", "x")}})
+			default:
+				evs = append(evs, Ev{HasSrc: true, Name: "srv", Cmd: "904", Params: []string{"me", "failed"}}, chat(), Ev{HasSrc: true, Name: "srv", Cmd: "906", Params: []string{"me", "aborted"}})
+			}
+			for i := 30 + r.Intn(30); i > 0; i-- {
+				evs = append(evs, chat())
+			}
+			return EncodeHistory("burst-sasl", "me", "user", evs)
+		},
+		Run: func(c Case) Result { return Isolated("state.stall", c, stallDirect) },
+	})
 	Register(&Suite{
 		Name: "state.liveness",
 		Prop: []string{"C05"},
